@@ -17,6 +17,15 @@ eleven fields id, vector, costs, costs_signed, state, population_id, algorithm_i
 Individual.from_dict restores them in the view) plus parents / children of the raw row; rows as a map id ->
 fields, and the raw row count.  Floats are compared by their 64-bit pattern; objects with keys sorted (key
 order is not part of the property).
+
+Red-team round 2 (a store that post-processes the JSON TEXT): string values and keys that are JSON tokens ("Infinity",
+"-Infinity", "NaN", "null", "true", "1e999"), look like numbers ("0x10", "-0", "1e5"), contain JSON fragments, quotes,
+backslashes, "\u0041" spelled out, SQL, NUL and other control characters, CR LF, U+2028/2029, lone surrogates, U+FFFF, BOM,
+combining marks, a 2.4 kB string - in custom data (values, keys, nested lists / tuples / objects, next to REAL +-inf),
+feature keys, algorithm ids, string values of parameter / cost descriptions, problem name / description: corpus case 17,
+a directed stream (`gen_history(strings=True)`) and, thinner, every other history.  Non-empty strings as feature VALUES stay
+outside (the unchanged Individual.to_dict recurses without end on them).  Compared exactly (Python str equality in the
+oracle; in Coq as opaque strings, NUL / surrogates renamed injectively by `lit`).
 """
 import gc
 import json
@@ -43,7 +52,9 @@ TRUSTED = [
     "ends with); that nothing changes an individual after that call is checked by the direct oracle on complete runs",
 ]
 ASSUMPTIONS = [
-    "values are JSON-able: str keys, finite or infinite (non-NaN) floats, Python ints within SQLite's 64-bit range as ids",
+    "values are JSON-able: str keys, finite or infinite (non-NaN) floats, Python ints within SQLite's 64-bit range as ids; strings are "
+    "arbitrary sequences of code points (NUL, control characters, lone surrogates included) wherever they travel inside JSON text, "
+    "and without NUL / surrogates where they are bound as an SQL text column (problem name, description, parameter / cost names)",
     "feature / parent / child values are numbers, booleans, None, Individuals and (nested) lists, tuples, numpy arrays of them, or an "
     "empty dict; a non-empty string or dict there makes Individual._replace_individual_id recurse without end (not written by the "
     "framework's algorithms, outside the model)",
@@ -885,7 +896,8 @@ def run(ctx):
                         set_field(ind, d, f, live)
             for f in ("vector", "costs"):       # the same list object in two individuals
                 o = d.get(f + "_alias")
-                if o is not None and o in self.objs and self.last[o][f] == d[f] and (prev is None or prev[f] != d[f] or prev.get(f + "_alias") != o):
+                if (o is not None and o in self.objs and self.last[o][f] == d[f] and (f != "costs" or self.last[o]["costs_signed"] == d["costs_signed"])
+                        and (prev is None or prev[f] != d[f] or prev.get(f + "_alias") != o)):
                     setattr(ind, f, getattr(self.objs[o], f))
                     if f == "costs":
                         ind.costs_signed = self.objs[o].costs_signed
@@ -1283,7 +1295,9 @@ def run(ctx):
     ctx.extra.update({"distribution": hist})
     ctx.rule = ("histories of 0..14 sync_individual / sync_all calls over 1..7 ids drawn from a pool with negative and 2^62-size ids, the data "
                 "re-drawn between calls (so that 'last wins' is observable), written to a real SQLite file (thread-safe and single-connection "
-                "store, write / rewrite mode, fresh / empty / stale file) and read through a fresh ProblemViewDataStore; a history is "
+                "store, write / rewrite mode, fresh / empty / stale file) and read through a fresh ProblemViewDataStore; strings that are JSON tokens / number look-alikes / need "
+                "escaping (Infinity, NaN, 1e999, quotes, backslashes, NUL, lone surrogates, 2.4 kB) as custom values and keys, feature keys, "
+                "description values (corpus 17, a directed stream of 50 / 400 histories, thinly everywhere); a history is "
                 "non-trivial when it writes at least two individual images; distinct = distinct encoded cases. Runs: one complete short run "
                 "per synchronising algorithm (%d algorithms), all store calls recorded." % len(ALGS))
 
